@@ -701,6 +701,12 @@ def _b1_overhead(ctx: Context, wf, wcfg, wn, fs_term) -> None:
                 if is_enc(t):
                     enc_nodes.append(n)
                     _seal_shape(ctx, R, wf, n, c, "encrypt")
+                elif contains(t, lambda s_: isinstance(s_, tuple) and s_[:1] in (("cvar",), ("unknown",), ("lparam",))) or any(
+                        isinstance(h_, (ast.GeneratorExp, ast.ListComp, ast.SetComp, ast.DictComp, ast.Lambda)) and any(y_ is c for y_ in ast.walk(h_))
+                        for r_ in ([n.ast] if n.ast is not None else []) + [e_ for e_ in n.exprs if e_ is not None] for h_ in ast.walk(r_)):
+                    # the argument is the variable of a comprehension / generator expression / lambda (a lazy pipeline over the
+                    # fragments): what it ranges over is not followed here - not decided rather than reported
+                    ck.unknown(R, f"_write_pdu: `{_u(c)[:70]}` encrypts the variable of a comprehension / generator expression: whether that is one fragment of encode_pdu is not decided", ctx.loc(wf, n))
                 else:
                     ck.violated(R, f"{ctx.fkey(wf)}:encrypt-shape",
                                 f"_write_pdu: `{_u(c)[:70]}` = {show(t, 120)} is not <the key tested for the overhead>.encrypt(<one fragment of encode_pdu>) - "
